@@ -26,7 +26,13 @@ BOUNDS = {
                    'exception class only) or raising any hpack exception; (3) the frame parser '
                    'failing in any way the real FrameBuffer can report; (4) CONTINUATION chains '
                    'around the backlog limit; (5) symbolic frame lengths and chunk boundaries on '
-                   'the real FrameBuffer (AbsWire shards shared with C21)',
+                   'the real FrameBuffer (AbsWire shards shared with C21); (6) every distinct '
+                   'library stream-state combination of the one-stream catalogue with ALL '
+                   'window counters symbolic (within their invariants) x one SETTINGS '
+                   '(INITIAL_WINDOW_SIZE 0..2^32-1 + a companion setting) / SETTINGS ACK of a '
+                   'local INITIAL_WINDOW_SIZE change / WINDOW_UPDATE 0..2^31-1 / DATA 0..2^24 '
+                   '(padded or not) / RST_STREAM; (7) streams opened by a request with Host '
+                   'instead of :authority x every peer frame, with and without header_encoding',
 }
 OUTSIDE = ['what hyperframe / hpack do with concrete malformed bytes (their contract; the '
            'validation tables and native replays use real bytes)']
@@ -62,6 +68,117 @@ def cfg_shards(tier, seed, cfg, tag):
         alpha = [o for o in F.alphabet(client, sids=(1, 2, 3), push=True) if o[0].isupper()]
         alpha += extra_frames(client, (1, 2, 3))
         out += F.entry_shards(tag, client, sel, alpha, judge, cfg=cfg)
+    return out
+
+
+def make_numeric(client, history, cfg):
+    """FSM state x numeric state: the endpoint is in the state reached by `history`, every
+    flow-control window it keeps (connection and streams, both directions) holds an arbitrary
+    value allowed by its invariant, and ONE frame with full-range numeric fields arrives"""
+    from engine.core import assume_z, s_le
+    from h2.settings import SettingCodes
+
+    def h():
+        with h2h.native():
+            ctx = ops.replay(client, history, cfg=cfg)
+        me = ctx.me
+        A = h2h.Adapter
+        A.set_conn_out_window(me, sym_int('cw', 0, INT31, default=65535))
+        sids = sorted(me.streams)
+        for sid in sids:
+            A.set_stream_out_window(me, sid, sym_int('sw%d' % sid, -INT31 - 1, INT31,
+                                                     default=65535))
+            cur = sym_int('iw%d' % sid, -INT31 - 1, INT31, default=65535)
+            mx = sym_int('im%d' % sid, 0, INT31, default=65535)
+            assume_z(s_and(s_le(cur, mx), s_le(mx - cur, INT31)))
+            A.set_wm(A.stream_wm(me, sid), cur, mx, sym_int('ip%d' % sid, 0, INT31, default=0))
+        ccur = sym_int('icw', 0, INT31, default=65535)
+        cmx = sym_int('icm', 0, INT31, default=65535)
+        assume_z(s_le(ccur, cmx))
+        A.set_wm(A.conn_wm(me), ccur, cmx, sym_int('icp', 0, INT31, default=0))
+        kinds = ['SETTINGS', 'SETTINGS_ACK', 'WU0'] + \
+            [k + str(sid) for sid in sids for k in ('WU', 'DATA', 'RST')]
+        kind = sym_choice('frame', kinds)
+        frames = []
+        if kind == 'SETTINGS':
+            f = hf.SettingsFrame(0)
+            f.settings = {4: sym_int('iws', 0, INT32, default=65536)}
+            h2h.sym_companion(f.settings, role_client=not client)
+            frames = [f]
+        elif kind == 'SETTINGS_ACK':
+            me.update_settings({SettingCodes.INITIAL_WINDOW_SIZE:
+                                sym_int('local_iws', 0, INT31, default=1)})
+            me.data_to_send()
+            f = hf.SettingsFrame(0)
+            f.flags.add('ACK')
+            frames = [f]
+        elif kind.startswith('WU'):
+            f = hf.WindowUpdateFrame(int(kind[2:]))
+            f.window_increment = sym_int('inc', 0, INT31, default=1)
+            frames = [f]
+        elif kind.startswith('DATA'):
+            f = hf.DataFrame(int(kind[4:]))
+            f.data = sym_bytes('dlen', 0, 2 ** 24 - 300, default=3)
+            if sym_bool('padded'):
+                f.flags.add('PADDED')
+                f.pad_length = sym_int('pad', 0, 255, default=0)
+            if sym_bool('end'):
+                f.flags.add('END_STREAM')
+            frames = [f]
+        else:
+            f = hf.RstStreamFrame(int(kind[3:]))
+            f.error_code = sym_int('code', 0, INT32, default=8)
+            frames = [f]
+        try:
+            h2h.deliver(me, frames)
+        except h2.exceptions.ProtocolError:
+            note('protocol-error')
+        except Exception as e:      # noqa
+            note('raised')
+            check(False, 'non-protocol-exception:%s:%s' % (type(e).__name__, kind), repr(e)[:120])
+        else:
+            note('returned')
+    return h
+
+
+def numeric_shards(tier, seed):
+    out = []
+    for client in (True, False):
+        role = 'client' if client else 'server'
+        cat = F.get_catalogue(client, 9 if tier == 'thorough' else 3)
+        seen = set()
+        for hist, depth in cat[0]:
+            ctx = ops.replay(client, hist)
+            if ctx.obs.conn_closed is not None or not ctx.me.streams:
+                continue
+            # one representative per (library stream state, still tracked?) combination
+            key = tuple(sorted((sid, st.state_machine.state, st.closed_by)
+                               for sid, st in ctx.me.streams.items()))
+            if key in seen:
+                continue
+            seen.add(key)
+            out.append(Shard('numeric/%s/%s' % (role, F.hist_name(hist)),
+                             make_numeric(client, list(hist), None), budget=150, twin=False,
+                             params={'history': [list(o) for o in hist]}))
+    return out
+
+
+def host_only_shards(tier, seed):
+    """streams whose request carried Host instead of :authority (the stream then has no
+    authority of its own), every peer frame, with and without header_encoding"""
+    out = []
+    for cfg, tag in ((None, 'default'), ({'header_encoding': 'utf-8'}, 'encoding')):
+        for client in (True, False):
+            first = ('send_headers' if client else 'HEADERS', 1, 'reqhost', False)
+            hists = [[first]]
+            if client:
+                hists.append([first, ('HEADERS', 1, 'resp', False)])
+            else:
+                hists.append([first, ('send_headers', 1, 'resp', False)])
+            alpha = [o for o in F.alphabet(client, sids=(1,), push=True) if o[0].isupper()]
+            alpha += extra_frames(client, (1,))
+            out += F.entry_shards('host_only_' + tag, client, [(h, len(h)) for h in hists], alpha,
+                                  judge, cfg=cfg)
     return out
 
 
@@ -200,4 +317,6 @@ def shards(tier, seed):
                                                                                       enc)))
     for n in (1, 63, 64, 65):
         out.append(Shard('continuation/n=%d' % n, h_continuation_chain(n)))
+    out += numeric_shards(tier, seed)
+    out += host_only_shards(tier, seed)
     return out
